@@ -31,8 +31,9 @@
   clauses in plain seconds under the explicit hypothesis `NoWrap`.
 -/
 import Lungo.Proofs.OplogSteps
+import Lungo.Proofs.ReplayLaws
 namespace Lungo.C08
-open Lungo
+open Lungo Lungo.Spec
 
 /-- every event carries a timestamp at `_id.ts`, and `L` lists them oldest first -/
 def HasTs (t : Txn) (L : List (Nat × Nat)) : Prop :=
@@ -557,5 +558,140 @@ private def hist : List Call :=
 #guard (run hist).catalog.oplog.map (fun sd => eventTs sd.doc) == [some (0, 1), some (0, 2), some (0, 3), some (0, 4)]
 #guard (run hist).catalog.oplog.map (fun sd => Get sd.doc "operationType") == [.str "insert", .str "insert", .str "update", .str "delete"]
 #guard (Sys.step schemaUnmodelled (run (hist.take 3)) (.insertOne hA [("_id", .i32 1)]) []) matches .error _
+
+/-! ## Part 4 — `oplog_faithful`
+
+  `contents cat` = every namespace but `local.oplog` with its documents in natural order;
+  `Spec.replay events contents` (Lungo/Spec/Replay.lean) reads each event like a change-stream
+  consumer and applies it. Contents are compared per namespace as document LISTS (natural order
+  is preserved), an absent namespace counting as empty (creating a collection or an index appends
+  no event), on every namespace other than `local.oplog` itself (`SameContents`).
+
+  Coherence facts assumed of the collection model (`CatOK`, to be discharged by the index
+  coherence invariant of C07): in every namespace but the oplog
+    * document identities (`SDoc.id`, the Go pointers) are pairwise distinct, and
+    * `_id` values are pairwise structurally distinct (implied by the unique `_id_` index).
+  They are needed of the state before AND after the call (an insert is only faithful if the new
+  `_id` is not already present).
+
+  PROVED for (`Call.covered`): insertOne, insertMany, deleteOne, deleteMany, findOneAndDelete,
+  dropCollection, dropDatabase, expire, createCollection, createIndex, dropIndex(es), all reads.
+  `oplog_faithful_partial` below is therefore the full statement restricted to these calls.
+  MISSING (not covered): updateOne/updateMany/findOneAndUpdate, replaceOne/findOneAndReplace
+  (including their upsert branch, which is the insert case) and bulkWrite. What is missing is
+  (1) for replace/update: `(replaceDoc docs old.id nw).map doc = setAt (key nw) nw.doc (docs.map doc)`
+  — from `sameId` and the two distinctness facts, plus for a replacement without `_id` the lemma
+  `Get (Put repl ["_id"] v true) "_id" = v`, which needs `splitPath "_id" = ["_id"]` (string
+  splitting does not reduce in the kernel); for multi-updates the fold over the matched list;
+  (2) for bulk: coherence at every intermediate catalog. The oplog side of these calls IS proved
+  (`step_appends`, `ids_strict_mono`). -/
+
+/-- equality of contents per namespace, `local.oplog` excluded -/
+def SameContents (a b : Contents) : Prop := ∀ h, h ≠ oplogHandle → a.docs h = b.docs h
+
+/-- the events recorded between two catalogs -/
+def eventsBetween (cat cat' : Catalog) : List Doc := (cat'.oplog.drop cat.oplog.length).map (·.doc)
+
+theorem eventsBetween_adv {cat cat' : Catalog} {es : List EvSpec} (h : Ext cat cat' es) :
+    eventsBetween cat cat' = evDocs cat.clock es := by
+  unfold eventsBetween
+  rw [List.map_drop, h.oplog]
+  have : cat.oplog.length = (cat.oplog.map (·.doc)).length := by simp
+  rw [this, List.drop_left]
+
+theorem adv_replay {cat cat' : Catalog} {es : List EvSpec} (h : Adv cat cat' es) :
+    SameContents (replay (eventsBetween cat cat') (contents cat)) (contents cat') := by
+  intro h' hne
+  rw [eventsBetween_adv h.ext, replay_evDocs_docs, contents_docs, contents_docs]
+  simp only [hne, ↓reduceIte]
+  exact (h.faith h' hne).symm
+
+/-- `oplog_faithful` (full statement: for EVERY call) restricted to the covered calls:
+    replaying the events recorded by one successful call onto the contents before it gives the
+    contents after it. -/
+theorem oplog_faithful_partial (sch : SchemaEval) (s s' : Sys) (c : Call) (oids : List V) (r : Reply)
+    (hcov : c.covered = true) (hp : OplogPlain s.catalog) (hok : CatOK s.catalog) (hok' : CatOK s'.catalog)
+    (hr : Sys.step sch s c oids = .ok (s', r)) :
+    SameContents (replay (eventsBetween s.catalog s'.catalog) (contents s.catalog)) (contents s'.catalog) := by
+  obtain ⟨es, h⟩ := Sys.step_adv sch s s' c oids r hcov hp hok hok' hr
+  exact adv_replay h
+
+/-- executing a sequence of calls (failing calls leave the state unchanged) -/
+def execAll (sch : SchemaEval) (s : Sys) : List (Call × List V) → Sys
+  | [] => s
+  | (c, o) :: r => execAll sch (Sys.exec sch s c o) r
+
+/-- along the run every call is covered and every state satisfies the coherence facts -/
+def AllOK (sch : SchemaEval) (s : Sys) : List (Call × List V) → Prop
+  | [] => CatOK s.catalog
+  | (c, o) :: r => CatOK s.catalog ∧ c.covered = true ∧ AllOK sch (Sys.exec sch s c o) r
+
+theorem AllOK.head {sch : SchemaEval} {s : Sys} {cs : List (Call × List V)} (h : AllOK sch s cs) : CatOK s.catalog := by
+  cases cs with
+  | nil => exact h
+  | cons a r => exact h.1
+
+theorem run_adv (sch : SchemaEval) (cs : List (Call × List V)) :
+    ∀ s : Sys, OplogPlain s.catalog → AllOK sch s cs → ∃ es, Adv s.catalog (execAll sch s cs).catalog es := by
+  induction cs with
+  | nil => intro s _ _; exact ⟨[], Adv.refl _⟩
+  | cons a r ih =>
+    intro s hp hall
+    obtain ⟨c, o⟩ := a
+    obtain ⟨hok, hcov, hrest⟩ := hall
+    simp only [execAll]
+    unfold Sys.exec at hrest ⊢
+    cases hstep : Sys.step sch s c o with
+    | error e =>
+      simp only [hstep] at hrest ⊢
+      exact ih s hp hrest
+    | ok p =>
+      obtain ⟨s', rep⟩ := p
+      simp only [hstep] at hrest ⊢
+      obtain ⟨es1, h1⟩ := Sys.step_adv sch s s' c o rep hcov hp hok hrest.head hstep
+      obtain ⟨es2, h2⟩ := ih s' (h1.ext.plain hp) hrest
+      exact ⟨_, Adv.trans h1 h2⟩
+
+/-- `oplog_faithful_run`: between ANY two points of a history — `s` is the state at the earlier
+    point (any state with a TTL-free oplog namespace, e.g. any reachable one), `cs` the calls
+    executed between the two points — replaying the events recorded in between onto the contents
+    at the earlier point reproduces the contents at the later point. (`_partial`: covered calls only.) -/
+theorem oplog_faithful_run_partial (sch : SchemaEval) (s : Sys) (cs : List (Call × List V))
+    (hp : OplogPlain s.catalog) (hall : AllOK sch s cs) :
+    SameContents (replay (eventsBetween s.catalog (execAll sch s cs).catalog) (contents s.catalog))
+      (contents (execAll sch s cs).catalog) := by
+  obtain ⟨es, h⟩ := run_adv sch cs s hp hall
+  exact adv_replay h
+
+/-- … and the events between the two points are exactly the log suffix added in between, numbered
+    consecutively from the earlier clock (gap-free, in commit order). -/
+theorem run_events_consecutive (sch : SchemaEval) (s : Sys) (cs : List (Call × List V))
+    (hp : OplogPlain s.catalog) (hall : AllOK sch s cs) :
+    (eventsBetween s.catalog (execAll sch s cs).catalog).map eventTs
+      = (List.range' (s.catalog.clock + 1) ((execAll sch s cs).catalog.clock - s.catalog.clock)).map fun k => some (0, k) := by
+  obtain ⟨es, h⟩ := run_adv sch cs s hp hall
+  rw [eventsBetween_adv h.ext, evDocs_ts, h.ext.clock]
+  congr 2
+  omega
+
+-- non-vacuity for part 4: replay between two points of a concrete history (ids 1,2 inserted; 2 deleted; 3 inserted; db dropped)
+private def hB : Handle := ⟨"db", "b"⟩
+private def histF : List (Call × List V) :=
+  [(.insertMany hA [[("_id", .i32 1), ("x", .i32 1)], [("_id", .i32 2), ("x", .i32 2)]] true, []),
+   (.insertOne hB [("_id", .str "k")], []),
+   (.deleteOne hA [("_id", .i32 1)], []),
+   (.createIndex hA "" { key := [("x", .i32 1)] }, []),
+   (.insertOne hA [("_id", .i32 3)], []),
+   (.dropCollection hB, [])]
+private def sMid : Sys := execAll schemaUnmodelled Sys.init (histF.take 2)
+private def sEnd : Sys := execAll schemaUnmodelled sMid (histF.drop 2)
+#guard (contents sMid.catalog).docs hA == [[("_id", .i32 1), ("x", .i32 1)], [("_id", .i32 2), ("x", .i32 2)]]
+#guard (eventsBetween sMid.catalog sEnd.catalog).length == 3
+#guard (replay (eventsBetween sMid.catalog sEnd.catalog) (contents sMid.catalog)).docs hA == (contents sEnd.catalog).docs hA
+#guard (replay (eventsBetween sMid.catalog sEnd.catalog) (contents sMid.catalog)).docs hB == (contents sEnd.catalog).docs hB
+#guard (contents sEnd.catalog).docs hA == [[("_id", .i32 2), ("x", .i32 2)], [("_id", .i32 3)]]
+#guard (contents sEnd.catalog).docs hB == []
+#guard (replay (eventsBetween Sys.init.catalog sEnd.catalog) (contents Sys.init.catalog)).docs hA == (contents sEnd.catalog).docs hA
+#guard histF.all fun c => c.1.covered
 
 end Lungo.C08
